@@ -139,6 +139,8 @@ def viol(ctx, l, clause, hist, step, cfg, **detail):
         sig['method'] = l['method']
     if 'markers' in l:
         sig['markers'] = l['markers']
+    if 'combine' in l:
+        sig['combine'] = bool(l['combine'])
     for k in ('cause',):
         if k in detail:
             sig[k] = detail[k]
@@ -166,7 +168,7 @@ def replay(ctx, cfg, hist, key):
             raise
         except Exception as e:
             cause = type(e).__name__ + ('-dt0' if op == 'make_U_II' and l['dt'] == [0, 0] else '')
-            if op == 'termlist_roundtrip':
+            if op in ('termlist_roundtrip', 'termlist_roundtrip_rev'):
                 # classification only: __add__ / plus_identity store IdR as negative indices
                 H_ = im.slots.get(l['s'])
                 if H_ is not None and any(x is not None and x < 0 for x in H_.IdR):
@@ -240,25 +242,36 @@ def step(ctx, im, marks, l, hist, n, cfg):
             viol(ctx, l, 'grouped-operator', hist, n, cfg, first_differences=hm.first_diffs(A, B))
             return False
         return True
-    if op == 'termlist_roundtrip':
+    if op in ('termlist_roundtrip', 'termlist_roundtrip_rev'):
         H = im.slots[l['s']]
-        tl = H.to_TermList(['Id', 'Sigmax', 'Sigmay', 'Sigmaz'])
+        start = None if op == 'termlist_roundtrip' else list(range(H.L))[::-1]
+        tl = H.to_TermList(['Id', 'Sigmax', 'Sigmay', 'Sigmaz'], start=start)
         G = tmpo.MPOGraph.from_term_list(tl, H.sites, H.bc, unit_cell_width=H.unit_cell_width)
         im.slots[l['s']] = G.build_MPO()
         return True
     H = im.slots.get(l.get('s'))
     if op == 'is_hermitian':
-        got = bool(H.is_hermitian())
+        kw = dict(max_range=im.cells * H.L) if im.infinite and H.max_range is None else {}
+        got = bool(H.is_hermitian(**kw))
         if got != l['res']:
             viol(ctx, l, 'truth-value', hist, n, cfg, got=got, expected=l['res'])
             return False
         return True
     if op == 'is_equal':
-        got = bool(im.slots['A'].is_equal(im.slots['B']))
+        HA, HB = im.slots['A'], im.slots['B']
         zero = not np.any(im.dense('A')) and not np.any(im.dense('B'))
-        if got != l['res']:
-            viol(ctx, l, 'truth-value', hist, n, cfg, got=got, expected=l['res'], cause='both-zero' if zero else 'other')
-            return False
+        for first, second, which in ((HA, HB, 'A.is_equal(B)'), (HB, HA, 'B.is_equal(A)')):
+            # unknown max_range (markers only at the ends): the documented default window is L + 2 L sites; the caller
+            # has to say how far the terms reach
+            kw = dict(max_range=im.cells * first.L) if im.infinite and first.max_range is None else {}
+            got = bool(first.is_equal(second, **kw))
+            if got != l['res']:
+                # classification only: the window is chosen from the max_range of the first operand alone
+                longer = (im.infinite and first.max_range is not None and second.max_range is not None
+                          and second.max_range > first.max_range)
+                viol(ctx, l, 'truth-value', hist, n, cfg, got=got, expected=l['res'], which=which,
+                     cause='both-zero' if zero else ('other-operand-has-longer-range' if longer else 'other'))
+                return False
         return True
     if op == 'overlap':
         A, B = im.slots['A'], im.slots['B']
@@ -307,7 +320,7 @@ def step(ctx, im, marks, l, hist, n, cfg):
             return True
         if not np.any(w):
             return True  # O|v> = 0 cannot be normalised by the compression methods
-        options = dict(compression_method=meth, trunc_params=dict(chi_max=64, svd_min=1e-14),
+        options = dict(compression_method=meth, combine=bool(l.get('combine', False)), trunc_params=dict(chi_max=64, svd_min=1e-14),
                        max_sweeps=8, min_sweeps=2, tol_theta_diff=1e-12, start_env_sites=0, m_temp=4, trunc_weight=1.0)
         err = H.apply(psi2, options)
         got = full_vector(psi2)
